@@ -17,7 +17,7 @@ From Coq Require Import List ZArith Bool Arith.
 Import ListNotations.
 From DD Require Import Base.PyStr Base.Value Path.PathModel Diff.Tree Diff.DiffModel Diff.TextView
   Diff.Spec Diff.DiffEmpty Diff.DiffSpecProofs.
-From DD Require Hash.HashModel.
+From DD Require Hash.HashModel Diff.DiffMemo Diff.DiffMemoProofs.
 
 (* GUARD: the item hash used for set members is injective on scalars.  The real DeepHash is
    not (findings K1, K2): see the two refutations below. *)
@@ -93,3 +93,29 @@ Theorem C03_positional_is_spec_refuted_alias :
     [TSetAdd (set_item_text [] (AHalf 2)); TSetRem (set_item_text [] (AInt 1))].
 Proof. exact positional_is_spec_refuted_alias. Qed.
 Print Assumptions C03_positional_is_spec_refuted_alias.
+
+(* with the run-wide DeepHash table inside the model (Diff/DiffMemo.v run_diff_m, what the
+   correspondence check runs on inputs with ==-aliased set members): under the boolean guards
+   "set members tag-safe" and "no two set members == without being identical" the positional
+   result is the recursive definition, as a multiset of entries *)
+Theorem C03_positional_is_spec_with_table :
+  forall H o udiff ops excl d ip t1 t2,
+    Hash.HashModel.ignore_iterable_order o = true ->
+    (forall s t, H s = H t -> s = t) -> Hash.HashModel.plain o = true ->
+    wf t1 = true -> wf t2 = true ->
+    inputs_ok any_atom Hash.HashModel.tag_safe_atom t1 = true ->
+    inputs_ok any_atom Hash.HashModel.tag_safe_atom t2 = true ->
+    Hash.HashModel.no_alias (DiffMemoProofs.set_members t1 ++ DiffMemoProofs.set_members t2) = true ->
+    Permutation.Permutation
+      (text_view 2 (fst (fst (DiffMemo.run_diff_m H o udiff ops (fun _ => false) excl (mkCfg true 0 d ip) t1 t2))))
+      (spec_diff udiff ip t1 t2).
+Proof. intros. apply DiffMemoProofs.run_diff_m_positional_is_spec; assumption. Qed.
+Print Assumptions C03_positional_is_spec_with_table.
+
+(* without the alias guard: {1,'a'} vs {1.0,'a'} with the REAL table behaviour (not a toy hash) *)
+Theorem C03_positional_is_spec_with_table_refuted :
+  wf k2_t1 = true /\ wf k2_t2 = true /\
+  text_view 2 (fst (fst (DiffMemo.run_diff_m Hash.HashModel.hexhash Hash.HashModel.default_opts (fun _ _ => []) one_block (fun _ => false) (fun _ => false) (mkCfg true 0 1 true) k2_t1 k2_t2))) = [] /\
+  length (spec_diff (fun _ _ => []) true k2_t1 k2_t2) = 2.
+Proof. exact DiffMemoProofs.positional_with_table_refuted_alias. Qed.
+Print Assumptions C03_positional_is_spec_with_table_refuted.
